@@ -10,10 +10,12 @@ A *part* of a stream is a compact, JSON-able byte description (so that replays w
     {'cls': '<protocol>:<class>[:<variant>]', 'parts': [part...], 'zones': [offsets inside the frame worth cutting at],
      'delimited': bool,      # the frame's own length announcement covers exactly its bytes (the stream stays in sync after it)
      'wants': n}             # bytes (counted from the frame's start) the announcement can make a reader wait for (>= its length)
-Classes marked PENDING_TRIAGE are implemented but not generated unless asked for (`pending_triage=True`, env VERIF_PENDING_TRIAGE=1 in
-C07): they show a candidate defect of the unchanged library that the coordinator is triaging — today only (ii-a), a FIX BodyLength far
-beyond anything that will ever arrive (the reader waits for ever while bytes keep arriving).  Classes marked MODEL_BOUNDARY are outside
-what the Lean model covers (oracle only).
+The class marked UNDELIMITED_OBSERVATION is implemented but never part of a verdict (`undelimited=True`, env
+VERIF_UNDELIMITED_OBSERVATION=1 in C07, for the record only): a FIX BodyLength far beyond anything that will ever arrive — the reader
+waits for ever while bytes keep arriving.  Such a frame is not *delimited* (C07's deafness clause quantifies over valid frames + one
+malformed-but-delimited frame + valid frames; SoupBinTCP has the same shape, bounded at 64 KiB), so this is an observation outside
+the quantifier (DESIGN.md), not a finding; replay: corpus/C07-observations/.  Classes marked MODEL_BOUNDARY are outside what the
+Lean model covers (oracle only).
 """
 SOH = b'\x01'
 
@@ -84,7 +86,7 @@ def _mk(cls, b, zones=(), delimited=True, wants=None, parts=None):
             'wants': len(b) if wants is None else wants, 'len': len(b)}
 
 
-def soup_malformed(rng, to_client, pending_triage=False):
+def soup_malformed(rng, to_client):
     """every class of malformed-but-delimited SoupBinTCP packet, one (randomly parametrised) representative per class × type;
     `to_client`: the frames travel server -> client session (else client -> server session)"""
     expected = SOUP_TYPES_FROM_SERVER if to_client else b'LURO+'
@@ -184,7 +186,7 @@ def fix_good(ver, fields):
     return fix_frame_raw(ver, str(len(rest)).encode(), rest)
 
 
-def fix_malformed(rng, good_fields, ver=b'FIX.4.4', follow_len=0, pending_triage=False):
+def fix_malformed(rng, good_fields, ver=b'FIX.4.4', follow_len=0, undelimited=False):
     """every class of malformed FIX frame, one randomly parametrised representative per class (several for BodyLength).
     `good_fields`: (tag, value) pairs of a well-formed application message (first pair is 35=<type>);
     `follow_len`: number of bytes the caller will certainly send after the frame (bounds BodyLength values that swallow
@@ -233,11 +235,12 @@ def fix_malformed(rng, good_fields, ver=b'FIX.4.4', follow_len=0, pending_triage
     if follow_len > 0:
         for d in sorted({follow_len, max(1, follow_len - 1), max(1, follow_len // 2)}):
             out.append(with_len(str(n + d).encode(), 'fix:bodylength-long-swallows', wants_extra=d))
-    if pending_triage:
-        # PENDING_TRIAGE (ii): a BodyLength far beyond anything that will ever arrive: the reader waits for ever, every later frame
-        # is swallowed, the session stays open and (bytes keep arriving) the remote monitor never fires
+    if undelimited:
+        # UNDELIMITED_OBSERVATION: a BodyLength far beyond anything that will ever arrive: the reader waits for ever, every later
+        # frame is swallowed, the session stays open and (bytes keep arriving) the remote monitor never fires.  Not delimited:
+        # outside the quantifier of C07's deafness clause; never generated for a verdict
         for text in (b'99999999999', str(n + follow_len + 1000).encode()):
-            out.append(with_len(text, 'fix:bodylength-huge:PENDING_TRIAGE', wants_extra=10**9))
+            out.append(with_len(text, 'fix:bodylength-huge:UNDELIMITED_OBSERVATION', wants_extra=10**9))
     # --- MsgType
     ty = good_fields[0][1] if isinstance(good_fields[0][1], bytes) else str(good_fields[0][1]).encode()
     after35 = rest[len(b'35=' + ty + SOH):]
